@@ -163,7 +163,46 @@ func announcementOvertakenByClose(e *core.Env) {
 	}
 	ms.Net.Remove(ann)
 	ann.NoDelay = true
+	// In a third of the cases the worker that handles the announcement is held at one of its
+	// first lock operations inside peering/ or m/ (both are compiled against the yielding lock
+	// shim): the link then goes down *while* the announcement is being handled, not before.
+	var hold chan struct{}
+	armed, holdAt, ops := false, 0, 0
+	if tp.Chance(1, 3) {
+		hold = make(chan struct{})
+		armed, holdAt = true, 1+tp.Intn(8)
+		simsync.Blocking = true
+		simsync.Yield = func(op string) {
+			if !armed {
+				return
+			}
+			ops++
+			if ops == holdAt {
+				armed = false
+				<-hold
+			}
+		}
+	}
 	ms.Net.DeliverRaw(ann) // read by the link reader: in the hands of A's workers from here on
+	if hold != nil {
+		simnet.Wait()
+		if armed {
+			armed = false // the handler needed fewer lock operations: it ran to its end
+		} else {
+			e.Probe("announcement_handler_held_while_its_link_goes_down")
+		}
+		defer func() {
+			simsync.Yield = nil
+			simsync.Blocking = false
+		}()
+	}
+	release := func() {
+		if hold != nil {
+			close(hold)
+			hold = nil
+			simnet.Wait()
+		}
+	}
 	reconnected := false
 	if tp.Chance(1, 3) {
 		// ... the link goes down at both ends and the two routers are connected again (same or
@@ -200,6 +239,7 @@ func announcementOvertakenByClose(e *core.Env) {
 		}
 	}
 	simnet.Wait()
+	release()
 	ms.Net.DrainFIFO(tp, 5000)
 	ms.CheckPanics("worker-panic")
 	e.Fault("link_close_overtakes_announcement")
